@@ -893,6 +893,10 @@ class FortranReaderBase:
                 self.reader = FortranFileReader(
                     path, include_dirs=include_dirs, ignore_comments=ignore_comments
                 )
+                # The included text continues the including source and so is
+                # in the same source form; the form must not be re-detected
+                # from the fragment alone.
+                self.reader.set_format(self._format)
                 result = self.reader.next(ignore_comments=ignore_comments)
                 return result
             return item
